@@ -90,32 +90,33 @@ PROPS = {
                  '(the blocking step before it forces another round whenever completions are owed) and tasks are nevertheless pending; it never '
                  'finishes a build as successful while tasks are pending; an unbreakable cycle fails the build after draining, a broken one lets the loop '
                  'continue; resolveCycle searches under both locks, offers exactly the cycle found for breaking and reports exactly that cycle to the '
-                 'delegate iff it could not be broken; findCycle in steps: every paused input request that has a task, and every deferred scan request, parked on a visited scan record '
+                 'delegate iff it could not be broken; findCycle in steps: every request for the rule of a task and every scan deferred on a task becomes one wait-for edge from the rule of that task, the pending scan record of every rule being scanned is a starting point, every paused input request that has a task, and every deferred scan request, parked on a visited scan record '
                  'becomes exactly one wait-for edge (requests without a task are skipped, not the rest of the list; the record of a rule whose scan is deferred is visited next), '
                  'the inversion turns every edge into exactly one predecessor entry, and one iteration of the depth-first search keeps the invariant '
                  'that the path list mirrors the stack, starts at the requested rule, follows predecessor entries only and holds pairwise distinct rules - '
                  'so the list it stops with starts at the requested rule, every consecutive pair is a wait-for edge, and its last rule repeats an earlier one (graphs of at most 4 rules with at most 3 predecessors each); '
                  'cleanSingleUseDependencies removes exactly the single-use entries of a dependency list (at most 4 entries), so a single-use request of an earlier build is never a wait-for edge of a later one',
-        'not_decided': ['the first two loops of findCycle (edges from the task records, the initial set of scan records) and the visited-set worklist around the steps; the composition of the steps is on paper',
+        'not_decided': ['the visited-set worklist around the gathering steps and the sort of the predecessor lists; the composition of the steps is on paper',
                         'the cycle-breaking heuristics (breakCycle)', 'liveness: that a real cycle always stalls the loop; termination of the search (finite simple paths)'],
     },
     'C08': {
-        'units': ['extcmd', 'fileinfo', 'extcmd_run', 'extcmd_result', 'shelldeps_dispatch'],
+        'units': ['extcmd', 'fileinfo', 'extcmd_run', 'extcmd_result', 'shelldeps_dispatch', 'nodetasks'],
         'design_ref': 'DESIGN.md section 4, C08',
         'claim': 'kernel only: ExternalCommand::isResultValid declares a stored result valid only if every non-virtual output still matches what the '
                  'command produced (existence only for mutated outputs) and never for a non-successful stored result; FileInfo ==/!= and '
                  'getInfoForPath (shared with C13) decide "has this file changed"; computeCommandResult records one info per output in output order (the epoch for a command-timestamp node, the all-zero record for a virtual node, the current file info otherwise; at most 4 outputs named), '
-                 'canUpdateIfNewerWithResult allows an update without running only with allow-modified-outputs and every recorded output existing; the deps-file dispatch of the shell command (see C11)',
+                 'canUpdateIfNewerWithResult allows an update without running only with allow-modified-outputs and every recorded output existing; getResultForOutput gives output k the k-th recorded info (existing input with exactly that info / missing output / virtual input); '
+                 'FileInputNodeTask: a source file value is valid exactly when existence and file information are unchanged, and building it records the current information once; ProducedNodeTask hands its producing command exactly this node and the delivered value; the deps-file dispatch of the shell command (see C11)',
         'not_decided': ['on-disk equivalence with a clean build (everything the title says)', 'the per-key-kind rule dispatch in lookupRule (closures)',
-                        'FileInputNodeTask / ProducedNodeTask / MissingCommandTask'],
+                        'TargetTask / StatTask / MissingCommandTask / ProducedDirectoryNodeTask, CommandTask'],
     },
     'C10': {
-        'units': ['extcmd', 'subprocess', 'extcmd_run', 'extcmd_result'],
+        'units': ['extcmd', 'subprocess', 'extcmd_run', 'extcmd_result', 'nodetasks'],
         'design_ref': 'DESIGN.md section 4, C10',
         'claim': 'every stored command result that is not a success is invalid (retried next build); only a successful stored result counts as a prior '
                  'result (so a skipped / propagated-failure value can never short-cut execution); cleanUpExecutedProcess (POSIX) reports success only for '
-                 'a reaped process whose wait status word is 0, cancelled for SIGINT/SIGKILL, failed otherwise, exactly one processFinished and one completion; ExternalCommand::start re-initialises the per-build state (skip value, missing keys, hasPriorResult, canUpdateIfNewer) and requests every declared input once under its position; provideValue: a failed input or a disallowed missing input makes the command skip with a propagated failure and a later good input never clears that; execute: a skipping command reports its skip value and never runs, missing inputs count as a command failure, the run is replaced by a look at the outputs only with a successful prior result of THIS build, a failed / cancelled process yields a failed / cancelled command value',
-        'not_decided': ['getResultForOutput, computeCommandResult, the directory creation and the dispatch to executeExternalCommand in execute', 'transitive non-execution across the graph and '
+                 'a reaped process whose wait status word is 0, cancelled for SIGINT/SIGKILL, failed otherwise, exactly one processFinished and one completion; ExternalCommand::start re-initialises the per-build state (skip value, missing keys, hasPriorResult, canUpdateIfNewer) and requests every declared input once under its position; provideValue: a failed input or a disallowed missing input makes the command skip with a propagated failure and a later good input never clears that; execute: a skipping command reports its skip value and never runs, missing inputs count as a command failure, the run is replaced by a look at the outputs only with a successful prior result of THIS build, a failed / cancelled process yields a failed / cancelled command value; getResultForOutput: the outputs of a failed, cancelled or propagated-failure command are failed inputs, of a skipped one skipped; a produced node whose stored value was a failed or missing input is never valid, a node without a single producer fails the build with a failed input',
+        'not_decided': ['the directory creation and the dispatch to executeExternalCommand in execute', 'transitive non-execution across the graph and '
                         'parallel timing', 'the Windows branch of Subprocess.cpp (not compiled here)'],
     },
     'C09': {
@@ -203,12 +204,13 @@ PROPS = {
         'not_decided': ['agreement of variable evaluation with Ninja itself (needs Ninja as oracle)', 'the composition of the evalString steps over a whole string', 'that the parser accepts exactly the Ninja grammar (only termination, token consumption and lexer mode are decided)'],
     },
     'C18': {
-        'units': ['ninja_valid', 'ninjadeps', 'ninja_task'],
+        'units': ['ninja_valid', 'ninjadeps', 'ninja_task', 'ninja_task_step'],
         'design_ref': 'DESIGN.md section 4, C18',
         'claim': 'validity predicates only: a Ninja command result is valid only if it was a success, the command hash is unchanged (generator commands '
                  'excepted: "a changed command line re-runs its command") and every output exists with unchanged file information; an input is valid exactly '
                  'when it was recorded as existing, still exists and is unchanged; a select-composite result exactly when successful with an unchanged hash; '
-                 'the depfile callback records the unescaped word normalised against the working directory (once, or not at all when normalisation fails); the command task: an input value that is neither an existing file nor a successful command makes the command skip (a missing one is reported once), a usable input never un-skips it and its time stamp is folded into the newest input time, update-if-newer is never switched back on, the prior command hash is taken only from a successful stored result, and a command is brought up to date WITHOUT running only if every output exists and is not older (strict mode: strictly newer) than the newest input',
+                 'the depfile callback records the unescaped word normalised against the working directory (once, or not at all when normalisation fails); the command task: an input value that is neither an existing file nor a successful command makes the command skip (a missing one is reported once), a usable input never un-skips it and its time stamp is folded into the newest input time, update-if-newer is never switched back on, the prior command hash is taken only from a successful stored result, and a command is brought up to date WITHOUT running only if every output exists and is not older (strict mode: strictly newer) than the newest input; two steps of inputsAvailable: a phony command completes with the current state of its outputs and forces the change through exactly when an output is missing; '
+                 'the update-without-running path is taken exactly when it is still allowed, the command is a generator or its command hash equals the hash of the stored successful result (a changed command line re-runs its command), and canUpdateIfNewerWithResult agrees - then it completes once with the recomputed result and counts one updated command',
         'not_decided': ['convergence to the clean-build state, null rebuilds, order-only handling, restat/generator/pool semantics, failure '
                         'propagation (closures over the build context)', 'decoding of the stored value (assumed pure)'],
     },
